@@ -114,6 +114,11 @@ func main() {
 			bad = append(bad, fmt.Sprintf("UNGATED acquisition of %s in %s at %s (held shared %v excl %v)", ar.LockName, ar.Func, ar.Pos[0], lockNames(res, ar.HeldShared), lockNames(res, ar.HeldExcl)))
 		}
 	}
+	for _, pr := range res.Pub {
+		if !pr.Listed {
+			bad = append(bad, fmt.Sprintf("NEW WRITE AFTER PUBLISH in %s: %s is stored into the guarded %s at %s and, after the lock is released, written through at %s (readers under the lock see a half-initialised object; unsynchronised write)", pr.Func, pr.Var, pr.Field, pr.PublishedAt, pr.WrittenAt))
+		}
+	}
 	for _, ct := range res.CTA {
 		if !ct.Listed {
 			bad = append(bad, fmt.Sprintf("NEW CHECK-THEN-ACT in %s: the value of %s, obtained under %s, is tested at %s and %s is taken again at %s (two critical sections: the tested fact may no longer hold)", ct.Func, ct.Source, ct.LockName, ct.CondPos, ct.LockName, ct.ActPos))
@@ -236,6 +241,16 @@ type chanOpOut struct {
 	drainedAll    bool
 }
 
+type pubOut struct {
+	Site        int    `json:"site"`
+	Func        string `json:"func"`
+	Field       string `json:"field"`
+	Var         string `json:"var"`
+	PublishedAt string `json:"published_at"`
+	WrittenAt   string `json:"written_at"`
+	Listed      bool   `json:"listed"`
+}
+
 type ctaOut struct {
 	Site     int    `json:"site"`
 	Func     string `json:"func"`
@@ -272,6 +287,8 @@ type summary struct {
 	FreshSkipped       int `json:"accesses_on_fresh_objects"`
 	InitSkipped        int `json:"accesses_in_init_functions"`
 	AddrTaken          int `json:"address_taken_sites_not_followed"`
+	PubRows            int `json:"write_after_publish_rows"`
+	UnlistedPub        int `json:"unlisted_write_after_publish_rows"`
 	CTARows            int `json:"check_then_act_rows"`
 	UnlistedCTA        int `json:"unlisted_check_then_act_rows"`
 	ChanOpsUnderLock   int `json:"channel_ops_under_lock"`
@@ -295,6 +312,9 @@ type result struct {
 	// that is over is tested, and the same lock is taken again later in the
 	// function); each must be in the reviewed baseline of guards.json.
 	CTA []ctaOut `json:"check_then_act"`
+	// Pub: writes through a local variable to an object after it was stored
+	// into a guarded field and the guarding hold ended (write after publish).
+	Pub []pubOut `json:"write_after_publish"`
 	// ChanOps: potentially blocking channel operations made while a lock is
 	// (possibly) held; channels are not part of the lock machine, every such
 	// site must be justified in the reviewed table.
@@ -410,6 +430,18 @@ func renderLean(r *result) string {
 		}
 		fmt.Fprintf(&b, "  ⟨%d, %d, %v, %s, %v⟩%s  -- %s %s %s %s %s\n", co.Site, co.ChanID, co.Op == "send", intsLean(co.Held), co.Justified, sep, co.Func, co.Op, co.Chan, co.Justification, co.Pos[0])
 	}
+	b.WriteString("]\n\n/-- write-after-publish rows: site, guarded field, in the reviewed baseline -/\ndef pubRows : List PubRow := [\n")
+	fieldID := map[string]int{}
+	for _, f := range r.Fields {
+		fieldID[f.Name] = f.ID
+	}
+	for i, pr := range r.Pub {
+		sep := ","
+		if i == len(r.Pub)-1 {
+			sep = ""
+		}
+		fmt.Fprintf(&b, "  ⟨%d, %d, %v⟩%s  -- %s: %s stored into %s at %s, written through at %s\n", pr.Site, fieldID[pr.Field], pr.Listed, sep, pr.Func, pr.Var, pr.Field, pr.PublishedAt, pr.WrittenAt)
+	}
 	b.WriteString("]\n\n/-- check-then-act rows: site, lock, in the reviewed baseline -/\ndef ctaRows : List CtaRow := [\n")
 	for i, ct := range r.CTA {
 		sep := ","
@@ -448,6 +480,10 @@ func printReport(r *result) {
 		}
 	}
 	fmt.Println("== stale known entries:", r.StaleKnown)
+	fmt.Println("== write-after-publish rows")
+	for _, pr := range r.Pub {
+		fmt.Printf("  %s | %s | %s | published %s written %s listed=%v\n", pr.Func, pr.Field, pr.Var, pr.PublishedAt, pr.WrittenAt, pr.Listed)
+	}
 	fmt.Println("== check-then-act rows")
 	for _, ct := range r.CTA {
 		fmt.Printf("  %s | %s | %s | cond %s act %s listed=%v\n", ct.Func, ct.LockName, ct.Source, ct.CondPos, ct.ActPos, ct.Listed)
